@@ -358,6 +358,7 @@ type Outcome struct {
 	Gen      *Gen
 	Stats    Stats
 	Lines    int
+	Moving   int // distinct observed calls that committed at least one transaction
 	Traces   int
 	Findings []Finding
 	Drift    []*Origin
@@ -491,6 +492,9 @@ func ReplayAndValidate(c *core.Ctx, g *Gen, extra [][]Op) (*Outcome, error) {
 	lines := make([][]byte, len(rec.order))
 	for i, k := range rec.order {
 		lines[i] = []byte(k)
+		if len(rec.lines[k].Line.States) > 1 {
+			out.Moving++
+		}
 	}
 	res, offs, err := validate("ChainSyncTrace", lines, c.Workers)
 	if err != nil {
@@ -711,7 +715,7 @@ func treeString(b []AbsBlk) string {
 }
 
 func writeEvidenceC15(c *core.Ctx, outs []*Outcome, violations int) {
-	states, trans, traces, lines, calls, beh, nontriv := 0, 0, 0, 0, 0, 0, 0
+	states, trans, traces, lines, calls, beh, nontriv, moving := 0, 0, 0, 0, 0, 0, 0, 0
 	plans := []any{}
 	samples := []any{}
 	for _, o := range outs {
@@ -722,6 +726,7 @@ func writeEvidenceC15(c *core.Ctx, outs []*Outcome, violations int) {
 		calls += o.Stats.Calls
 		beh += o.Stats.Behaviours
 		nontriv += o.Stats.NonTrivial
+		moving += o.Moving
 		p := o.Gen.Plan
 		plans = append(plans, map[string]any{"plan": p.Name, "flavours": p.Flavors, "depth": p.D, "max_range": p.MaxR, "max_blocks": p.MaxBlocks,
 			"stretch": p.Stretch, "simulated": p.SimNum, "tlc_distinct_states": o.Gen.Distinct, "tlc_states_generated": o.Gen.States, "tlc_wall_s": o.Gen.Wall,
@@ -737,10 +742,10 @@ func writeEvidenceC15(c *core.Ctx, outs []*Outcome, violations int) {
 	}
 	cov := map[string]any{
 		"states": states, "transitions": trans, "traces_validated_against_impl": traces, "samples": samples,
-		"evaluations": calls, "distinct_nontrivial": lines, "behaviours": beh, "calls_that_committed": nontriv, "plans": plans,
+		"evaluations": calls, "distinct_nontrivial": moving, "distinct_lines_validated": lines, "behaviours": beh, "calls_that_committed": nontriv, "plans": plans,
 		"rule": "TLC checks C15_Exact/C15_Atomic on the code-shaped spec for every tree, head sequence and fault of each plan and prints the first history reaching each state; " +
 			"the histories are replayed on the real syncers (fakeeth + fakepg); every Sync step is also run under every concrete fault (each RPC call index, each database statement index: SQL error, connection drop, commit-then-drop, context cancellation); " +
-			"evaluations = calls of the real Sync; distinct_nontrivial = distinct observed calls (tree, head, committed state sequence, result) validated by ChainSyncTrace (pass A monitors, pass B conformance)",
+			"evaluations = calls of the real Sync; distinct_nontrivial = distinct observed calls (flavour, tree, head, committed state sequence, result) that committed at least one transaction, each validated by ChainSyncTrace (pass A monitors, pass B conformance); states/transitions count the exhaustive plans only (TLC prints no state count in simulation mode)",
 	}
 	if err := ev.Write(ev.Evidence{PropertyID: c.Prop, Tier: c.Tier, Seed: c.Seed, Level: "model_checking", Coverage: cov,
 		Assumptions: assumptions(), WallS: time.Since(c.Start).Seconds(), Violations: violations}); err != nil {
